@@ -57,7 +57,9 @@ class EventDebouncer(BaseThread):
                 if self.debounce_interval_seconds:
                     # Wait for additional events (or shutdown) until the debounce interval passes.
                     while self.should_keep_running():
-                        if not self._cond.wait(timeout=self.debounce_interval_seconds):
+                        pending = len(self._events)
+                        if not self._cond.wait(timeout=self.debounce_interval_seconds) and pending == len(self._events):
+                            # Timed out and nothing arrived while the lock was being re-acquired.
                             break
 
                 if not self.should_keep_running():
